@@ -558,6 +558,59 @@ def noncanonical_accepted(f):
     return (len(bad) == 2), bad[:1]
 
 
+def weights_predictable(f):
+    """C08/C02/C03: the batch weights can be recomputed from public data before the responses are fixed (or do not depend on the proofs at all):
+    a pair of individually invalid proofs with d1 shifted by +w_1 / -w_0 is accepted. The weights are recomputed under a menu of weakened
+    derivations (refimpl.rs::weight_attack); with the documented derivation none of them is accepted."""
+    c = f.cfg
+    n, x = c['n'], c.get('x', 1)
+    ms = [(mm.get('m', 1), mm.get('cap', mm.get('m', 1))) for mm in c['members']][:3]
+    if len(ms) < 2:
+        ms = ms + [(1, 1)]
+    found = []
+    for seeded in (False, True):
+        cfg = {'scenario': 'batch', 'n': n, 'x': x, 'members': [{'m': m, 'cap': cap, 'seeded': seeded and m == 1} for (m, cap) in ms], 'attacks': True}
+        o = run_replay(cfg, 1)
+        if 'crash' in o:
+            return None, o
+        if o.get('weight_attack'):
+            found.append({'accepted_with': o['weight_attack'], 'scenario': cfg})
+            break
+    return (len(found) > 0), found[:1]
+
+
+def probe_or_weights(f):
+    ok, det = probe_unchanged(f)
+    if ok:
+        return ok, det
+    return weights_predictable(f)
+
+
+def nonce_hedge_broken(f):
+    """C13/C14: on the real crates with a stuck external RNG (i) two runs that differ in witness / context / statement share the blinding of a prover
+    message, or (ii) an observer reproduces alpha or (r, s, eta) from public data alone, or (iii) two 1-bit seeded proofs under different contexts
+    have the same final masking scalars (opened from the responses)"""
+    ok, det = nonce_shared_across_runs(f)
+    if ok:
+        return ok, det
+    c = f.detail.get('replay_cfg') or f.cfg
+    n, x = c['n'], c.get('x', 1)
+    m0 = c['members'][0]
+    for rng in ('zero', 'const'):
+        cfg = {'scenario': 'batch', 'n': n, 'x': x, 'members': [{'m': m0.get('m', 1), 'cap': m0.get('cap', m0.get('m', 1)), 'rng': rng, 'promises': m0.get('promises')}], 'attacks': True}
+        o = run_replay(cfg, 1)
+        if 'crash' not in o and o.get('public_nonce_guess') and o['public_nonce_guess'][0]:
+            return True, {'external_rng_stuck_at': rng, 'observer': o['public_nonce_guess'][0], 'scenario': cfg}
+    cfg = {'scenario': 'batch', 'n': 1, 'x': x, 'members': [{'m': 1, 'cap': 1, 'rng': 'zero', 'seeded': True}, {'m': 1, 'cap': 1, 'rng': 'zero', 'seeded': True, 'name_idx': 0, 'label': 'alt'}],
+           'attacks': True}
+    o = run_replay(cfg, 1)
+    if 'crash' not in o and o.get('opened_final_masks') and None not in o['opened_final_masks']:
+        a, b = o['opened_final_masks']
+        if a[0] == b[0] or a[1] == b[1]:
+            return True, {'final masking scalars opened from two 1-bit seeded proofs made under different transcript contexts coincide': [a, b]}
+    return False, det
+
+
 def relation_disagrees(f):
     """C02: the library's verdict differs from the independent unoptimised evaluation of the relation
     (replay crate, refimpl.rs) on an honest proof or on a perturbed proof of the same configuration"""
